@@ -238,8 +238,11 @@ Proof.
       intros content_field Pcf. unfold go_format_field_name.
       eapply post_bind; [exact (go_acr_tok _ (to_pascal_tok _ (key_tok _ Htag)))|]. intros tag_field Ptf.
       eapply post_bind with (P := fun sn => c10_tok_ok sn = true).
-      { destruct (original (eid sh)) as [|c0 r0] eqn:Eo; [apply post_mpanic|]. destruct (c0 <? 128) eqn:Ea; [|apply post_mpanic].
-        apply post_ret. unfold str_to_lowercase. cbn [flat_map]. rewrite app_nil_r, (ok_to_lower uc Huc c0 ltac:(lia)).
+      { apply post_ret. destruct (original (eid sh)) as [|c0 r0] eqn:Eo; [reflexivity|].
+        (* the name is identifier-shaped (dom_C10): its first character is ASCII, so char::to_lowercase is the ASCII one *)
+        assert (Ha : c0 < 128).
+        { unfold c10_ident_ok in Horig. apply andb_true_iff in Horig as [Hs _]. unfold c10_ident_start, is_aalpha, is_alower, is_aupper in Hs. unfold_chars. lia. }
+        rewrite (ok_to_lower uc Huc c0 Ha).
         pose proof (ident_tok _ Horig) as Ht. unfold c10_tok_ok in *. cbn [forallb] in *. rewrite special_alower.
         apply andb_true_iff in Ht as [Ht _]. rewrite Ht. reflexivity. }
       intros short Pshort. eapply post_bind; [exact (go_acr_tok _ (key_tok _ Htag))|]. intros tag_acr Pta.
